@@ -1119,6 +1119,11 @@ func (dn *dirnode) loadManifest(txt string) error {
 				if pos+int64(blkOff+blkLen) > offset+length {
 					blkLen = int(offset + length - pos - int64(blkOff))
 				}
+				if blkLen == 0 {
+					// zero-length file token positioned
+					// inside a block: nothing to append
+					break
+				}
 				fnode.appendSegment(storedSegment{
 					kc:      dn.fs,
 					locator: seg.locator,
